@@ -19,7 +19,7 @@ LEVEL = "other"
 DIST = "geo::algorithm::line_measures::distance::Distance"
 KERNELS = {("Point", "Line"), ("Point", "LineString"), ("Point", "Polygon"), ("Line", "Line"), ("Line", "Polygon"),
            ("LineString", "LineString"), ("LineString", "Polygon"), ("Polygon", "Polygon")}
-NOINL = [r"::to_polygon$", r"::intersects$", r"nearest_neighbour_distance$", r"ring_contains_coord$", r"line_segment_distance$",
+NOINL = [r"::to_polygon$", r"::intersects$", r"nearest_neighbour_distance$", r"coord_pos_relative_to_ring$", r"line_segment_distance$",
          r"line_euclidean_length$", r"line_string_contains_point$", r"point_contains_point$"]
 CONV = re.compile(r"^(to_polygon\(\)|\.0|from\(\)|into\(\)|Point\{\})$")
 
@@ -150,6 +150,17 @@ def containment(rep, key, a, paths, fn):
             m = re.search(r"ring_contains_coord\(&\*a(\d)\.exterior", s)
             if m:
                 atoms["contains%s" % m.group(1)] = v
+            # the helper inlined: the position of the other operand's first vertex relative to the exterior ring of operand k is Inside
+            if "coord_pos_relative_to_ring(" in s:
+                call_s = s.split("coord_pos_relative_to_ring(", 1)[1]
+                rings = re.findall(r"a(\d)\.exterior(?!\.0\[)|exterior\(&?\*?a(\d)\)(?!\.0\[)", call_s)
+                ks = [x[0] or x[1] for x in rings]
+                if ks and "interiors" not in call_s[:200]:
+                    k_ = ks[-1]          # the ring is the second argument
+                    if t[0] == "discr":
+                        atoms["contains%s" % k_] = 1 if v == 1 else 0
+                    elif "CoordPos::Inside" in s:
+                        atoms["contains%s" % k_] = v
             m = re.search(r"is_empty\(&\*a(\d)\.interiors\)", s)
             if m:
                 atoms["noholes%s" % m.group(1)] = v
@@ -217,35 +228,60 @@ def clamp(rep, F):
 
 
 def nn_coverage(rep, F):
-    rep.rule("R7.5", "nearest_neighbour_distance queries every vertex of each operand against a tree built from every segment of the other, and takes the minimum of both directions")
+    """R7.5 on line strings of 3 and 2 coordinates (exact unrolling, loop or fold alike): the result is the minimum over exactly these terms: for
+    every vertex p of one operand, distance(nearest segment among ALL segments of the other operand, p) — both directions."""
+    from ..symex import bare
+    rep.rule("R7.5", "nearest_neighbour_distance (3 and 2 coordinates, exact unrolling): min over every vertex of each operand of the distance to its nearest segment in a tree built from every segment of the other operand")
     try:
         fn = F.one(r"euclidean::distance::nearest_neighbour_distance$", crates=("geo",))
-        from .c01 import opaque
-        ps = [p for p in opaque(F).run(fn) if p.kind == "ret"]
+        LS = "geo_types::geometry::line_string::LineString"
+
+        def ls(arg, n):
+            return ("&", ("adt", LS, "LineString", (("call", "vec!", (("array", tuple(("index", ("field", ("deref", ("arg", arg)), "0"), ("const", k)) for k in range(n))),)),)))
+        ex = Symex(F, inline_crates=("geo", "geo_types"), no_inline=[r"RTree", r"CachedEnvelope", r"Distance.*::distance$"], loop_bound=10, concrete_iters=True)
+        sizes = {1: 3, 2: 2}
+        ps = [p for p in ex.run(fn, args=[ls(1, 3), ls(2, 2)]) if p.kind == "ret"]
     except (KeyError, Unanalysable) as e:
         rep.bad("R7.5", "anchor", str(e))
         return
-    if len(ps) != 1:
-        rep.bad("R7.5", "paths", "expected a single path, found %d" % len(ps), where=fn.loc())
+    if not ps:
+        rep.bad("R7.5", "paths", "no returning path", where=fn.loc())
         return
-    r = show(ps[0].ret)
-    # min(fold(points(a?), max_value(), closure[tree of the other]), fold(points(a?), ...))
-    folds = re.findall(r"fold\(([^,]*?)\((&?\*?a\d)\), max_value\(\)", r)
-    srcs = sorted((f[0].split("::")[-1], f[1].replace("&", "").replace("*", "")) for f in folds)
-    trees = re.findall(r"bulk_load\(collect\(map\((.*?)\((&?\*?a\d)\)", r)
-    tsrc = sorted({(x[0].split("::")[-1], x[1].replace("&", "").replace("*", "")) for x in trees})
-    ok = srcs == [("points", "a1"), ("points", "a2")] and tsrc == [("lines", "a1"), ("lines", "a2")] and r.startswith("min(")
-    # each fold over the points of one operand must query the tree of the *other* operand
-    if ok:
-        for m in re.finditer(r"fold\([^,]*?\(&?\*?(a\d)\), max_value\(\), closure\([^\)]*\)\[(.*?)\]\)", r):
-            pts, caps = m.group(1), m.group(2)
-            other = "a2" if pts == "a1" else "a1"
-            if ("lines(&*%s)" % other) not in caps.replace(" ", "") and ("lines(%s)" % other) not in caps.replace("&", "").replace("*", ""):
-                ok = False
-    if ok:
-        rep.ok("R7.5", "both-directions-all-vertices", sample=r[:200])
-    else:
-        rep.bad("R7.5", "coverage", "the vertex/segment search does not cover every vertex of both operands against every segment of the other: folds over %s, trees from %s" % (srcs, tsrc), where=fn.loc(), detail=r[:600])
+    for p in ps:
+        terms = []
+
+        def flat(t):
+            while t[0] in ("&", "deref"):
+                t = t[1]
+            if t[0] == "call" and t[1].rsplit("::", 1)[-1] == "min" and len(t[2]) == 2:
+                flat(t[2][0])
+                flat(t[2][1])
+            else:
+                terms.append(bare(t))
+        flat(p.ret)
+        got = set()
+        bad = None
+        for t in terms:
+            if t == "max_value()":
+                continue
+            m = re.match(r"^distance\(Euclidean::Euclidean\(\), deref\(\(nearest_neighbor\(bulk_load\(vec!\(\[(.*)\]\)\), from\(a(\d)\.0\[(\d)\]\)\) as Some\)\.0\), from\(a(\d)\.0\[(\d)\]\)\)$", t)
+            if not m or (m.group(2), m.group(3)) != (m.group(4), m.group(5)):
+                bad = "a term of the minimum is %s, not distance(nearest segment of the other operand, vertex)" % t[:160]
+                break
+            segs = re.findall(r"new\(Line::Line\(into\(a(\d)\.0\[(\d)\]\), into\(a(\d)\.0\[(\d)\]\)\)\)", m.group(1))
+            other = 2 if m.group(2) == "1" else 1
+            want_segs = [(str(other), str(k), str(other), str(k + 1)) for k in range(sizes[other] - 1)]
+            if sorted(segs) != sorted(want_segs):
+                bad = "vertex a%s[%s] is measured against the segments %s, expected every segment of the other operand %s" % (m.group(2), m.group(3), segs, want_segs)
+                break
+            got.add((int(m.group(2)), int(m.group(3))))
+        want = {(a, k) for a in (1, 2) for k in range(sizes[a])}
+        if bad is None and got != want:
+            bad = "the vertices queried are %s, expected every vertex of both operands %s: a closest approach from a vertex that is never queried is missed" % (sorted(got), sorted(want))
+        if bad:
+            rep.bad("R7.5", "coverage", bad, where=fn.loc())
+            return
+    rep.ok("R7.5", "both-directions-all-vertices")
 
 
 def line_line(rep, F):
